@@ -351,6 +351,7 @@ type store struct {
 	rev     uint64
 	burst   int // remaining steps of an error burst (reaches MaxErrorsPerRevision)
 	tickrun int
+	outage  int // remaining steps of a datastore outage: everything fails and the retry timeout elapses
 }
 
 func (s *store) keys() []uint64 {
@@ -622,13 +623,26 @@ func runCase(r *rng, long bool) line {
 		rq := pending[c]
 		st := stores[c]
 		var rs *response
-		switch rq.kind {
-		case kList:
+		if st.outage == 0 && r.pct(4) {
+			st.outage = 3 + r.intn(3)
+		}
+		switch {
+		case st.outage > 0 && rq.kind == kList:
+			rs = &response{listErr: errors.New("outage"), coq: "(RListErr LOther)", tag: "outage"}
+		case st.outage > 0 && rq.kind == kWatch:
+			rs = &response{watchErr: syscall.ECONNREFUSED, coq: "(RWatchErr WConnRefused)", tag: "outage"}
+		case st.outage > 0:
+			rs = &response{closed: true, coq: "(REvent EvClosed)", tag: "outage"}
+		case rq.kind == kList:
 			rs = genList(r, st, c)
-		case kWatch:
+		case rq.kind == kWatch:
 			rs = genWatch(r, st)
 		default:
 			rs = genEvent(r, st, c)
+		}
+		if st.outage > 0 {
+			st.outage--
+			rs.tick = true
 		}
 		if st.tickrun > 0 {
 			st.tickrun--
